@@ -300,38 +300,52 @@ def _extend_over_docs(toks, pos):
         k -= 1
     return pos
 
+def _descend(src, item):
+    lo, hi = item.body_open + 1, item.body_close
+    if item.kind == "macro":
+        ct = code_tokens(tokenize(src[lo:hi]))
+        br = match_brackets(ct)
+        arrows = [k for k, t in enumerate(ct) if t.text == "=>" and all(not (o < k < c) for o, c in br.items() if o < c)]
+        if len(arrows) != 1:
+            raise KeyError("macro %r: expected exactly one arm" % item.name)
+        o = arrows[0] + 1
+        lo, hi = lo + ct[o].start + 1, lo + ct[br[o]].start
+    return lo, hi
+
+
+def _candidates(src, lo, hi, sel):
+    kind, _, rest = sel.partition(" ")
+    rest = norm_ws(rest)
+    if sel.startswith("impl"):
+        kind = "impl"
+    cands = []
+    for it in items_in(src, lo, hi):
+        if kind == "impl" and it.kind == "impl":
+            if norm_ws(it.header) == norm_ws(sel):
+                cands.append(it)
+        elif kind == "macro" and it.kind == "macro" and it.name == rest:
+            cands.append(it)
+        elif it.kind == kind and it.name == rest:
+            cands.append(it)
+    return cands
+
+
 def find_item(src, path):
-    """path: list of selectors like 'impl NonZeroPow2Usize', 'fn new',
-    'struct U256', 'macro checked_num', 'enum Task', 'const MAX_DIGITS'.
-    Returns the Item, searching nested containers."""
-    lo, hi = 0, len(src)
-    item = None
-    for sel in path:
-        kind, _, rest = sel.partition(" ")
-        rest = norm_ws(rest)
-        if sel.startswith("impl"):
-            kind = "impl"
-        cands = []
-        for it in items_in(src, lo, hi):
-            if kind == "impl" and it.kind == "impl":
-                if norm_ws(it.header) == norm_ws(sel):
-                    cands.append(it)
-            elif kind == "macro" and it.kind == "macro" and it.name == rest:
-                cands.append(it)
-            elif it.kind == kind and it.name == rest:
-                cands.append(it)
-        if len(cands) != 1:
-            raise KeyError("selector %r matched %d items" % (sel, len(cands)))
-        item = cands[0]
-        if item.body_open is not None:
-            lo, hi = item.body_open + 1, item.body_close
-            if item.kind == "macro":
-                # single-arm macro: descend into the transcriber `=> { ... }`
-                ct = code_tokens(tokenize(src[lo:hi]))
-                br = match_brackets(ct)
-                arrows = [k for k, t in enumerate(ct) if t.text == "=>" and all(not (o < k < c) for o, c in br.items() if o < c)]
-                if len(arrows) != 1:
-                    raise KeyError("macro %r: expected exactly one arm" % sel)
-                o = arrows[0] + 1
-                lo, hi = lo + ct[o].start + 1, lo + ct[br[o]].start
-    return item
+    """path: list of selectors like 'impl NonZeroPow2Usize', 'fn new', 'struct U256', 'macro checked_num',
+    'enum Task', 'const MAX_DIGITS'.  Searches nested containers; when a container selector matches several
+    items (e.g. two `impl Value` blocks) the one that contains the rest of the path is taken."""
+    def rec(lo, hi, idx):
+        cands = _candidates(src, lo, hi, path[idx])
+        if idx == len(path) - 1:
+            return cands
+        out = []
+        for c in cands:
+            if c.body_open is None:
+                continue
+            l2, h2 = _descend(src, c)
+            out.extend(rec(l2, h2, idx + 1))
+        return out
+    res = rec(0, len(src), 0)
+    if len(res) != 1:
+        raise KeyError("path %r matched %d items" % (" :: ".join(path), len(res)))
+    return res[0]
